@@ -13,5 +13,6 @@ export VERIF_WARM=1 VERIF_EVIDENCE_DIR=/tmp/verif-warm-evidence VERIF_REPLAY_DIR
 VERIF_RUNS=32 ./check C16 quick >/dev/null 2>&1 || true
 VERIF_RUNS=64 VERIF_DESIGNS=4 ./check C02 quick >/dev/null 2>&1 || true
 VERIF_RUNS=64 VERIF_DESIGNS=4 ./check C20 quick >/dev/null 2>&1 || true
+./check C09 quick >/dev/null 2>&1 || true
 rm -rf /tmp/verif-warm-evidence /tmp/verif-warm-replays
 echo setup ok
